@@ -9,13 +9,15 @@
                     side B  10 y.attr = x | 11 del y.attr | 12 append y x | 13 remove y x | 14 y = xs (bulk)
                     15 status rows   flush + expire_all + read both sides; [rows] is what the flush
                        left in the foreign key column / association table (input from the trace)
+                    16 status rows   flush + commit + load (not terminal)
+                    17 x / 18 y      del x.attr / del y.attr on a collection side
    output  one entry per operation: L [I rc; L sideA; L sideB]   rc 0 | 1 AttributeError
            | 3 ValueError | 5 IndexError | 77 out of fuel (never); cells: members, or L [I v]
            (0 None, -1 expired, -2 absent); reload: L [I 0; pairs seen from side A; pairs seen from B] *)
 From Coq Require Import List ZArith NArith Bool.
 Import ListNotations.
 From SAV.base Require Import Tree.
-From SAV.orm Require Import Backref.
+From SAV.orm Require Import Backref BackrefSpec.
 
 Definition as_rkind (t : tree) : option rkind :=
   match t with I 0%Z => Some O2M | I 1%Z => Some O2O | I 2%Z => Some M2M | _ => None end.
@@ -29,8 +31,14 @@ Definition of_cell (c : cell) : tree :=
   | CVal v => L [of_N v]
   | CList l => of_list of_N l
   end.
-Definition of_state (s : st) : list tree :=
-  [L (map (fun o => of_cell (sa s o)) objs); L (map (fun o => of_cell (sb s o)) objs)].
+(* a collection side that is not in the dict reads as an empty collection *)
+Definition of_side (r : rkind) (s : st) (sd : side) (o : N) : tree :=
+  match kind_of r sd with
+  | Coll => of_list of_N (coll_of s sd o)
+  | Scal => of_cell (cells s sd o)
+  end.
+Definition of_state (r : rkind) (s : st) : list tree :=
+  [L (map (of_side r s SA) objs); L (map (of_side r s SB) objs)].
 Definition of_exn (e : exn) : Z := match e with AttributeError => 1 | ValueError => 3 | IndexError => 5 end.
 
 (* a user operation is a list of primitives, computed from the current state (slices) *)
@@ -77,6 +85,8 @@ Definition as_uop (t : tree) : option uop :=
   | L [I 11%Z; y] => option_map (fun a => UPrim (PDel SB a)) (as_N y)
   | L [I 12%Z; y; x] => match as_N y, as_N x with Some a, Some b => Some (UPrim (PAppend SB a b)) | _, _ => None end
   | L [I 13%Z; y; x] => match as_N y, as_N x with Some a, Some b => Some (UPrim (PRemove SB a b)) | _, _ => None end
+  | L [I 17%Z; x] => option_map (fun a => UPrim (PDelColl SA a)) (as_N x)
+  | L [I 18%Z; y] => option_map (fun a => UPrim (PDelColl SB a)) (as_N y)
   | L [I 14%Z; y; xs] => match as_N y, as_list_of as_N xs with
                          | Some a, Some l => Some (UPrim (PReplace SB a l)) | _, _ => None end
   | _ => None
@@ -126,13 +136,22 @@ Fixpoint run_ops (r : rkind) (ops : list tree) (s : st) : list tree :=
           else [L [I status; L []; L []]]
       | None => [bad_input]
       end
+  | L [I 16%Z; I status; trows] :: rest =>
+      (* flush + commit + load every collection side: the rows are input; the run goes on *)
+      match as_list_of as_pair trows with
+      | Some rows =>
+          if (status =? 0)%Z
+          then let s1 := reload r rows in L (I 0%Z :: of_state r s1) :: run_ops r rest s1
+          else [L [I status; L []; L []]]
+      | None => [bad_input]
+      end
   | t :: rest =>
       match as_uop t with
       | None => [bad_input]
       | Some u =>
           match step_uop r u s with
-          | Ok s1 => L (I 0%Z :: of_state s1) :: run_ops r rest s1
-          | Err e s1 => L (I (of_exn e) :: of_state s1) :: run_ops r rest s1
+          | Ok s1 => L (I 0%Z :: of_state r s1) :: run_ops r rest s1
+          | Err e s1 => L (I (of_exn e) :: of_state r s1) :: run_ops r rest s1
           | OutOfFuel => [L [I 77%Z]]
           end
       end
